@@ -114,6 +114,11 @@ def body_nodes(fnode, include_lambdas=True):
     while stack:
         n = stack.pop()
         yield n
+        if isinstance(n, (ast.FunctionDef, ast.AsyncFunctionDef, ast.ClassDef)):
+            # a nested definition: its decorators/defaults belong to us, its body does not
+            for c in n.decorator_list:
+                stack.append(c)
+            continue
         for c in ast.iter_child_nodes(n):
             if isinstance(c, (ast.FunctionDef, ast.AsyncFunctionDef, ast.ClassDef)):
                 # the def statement itself is visible (name binding + decorators)
